@@ -168,6 +168,10 @@ def weight_vector(kind, x, y):
         return np.asarray(x, dtype=float)
     if kind == "one":
         return np.ones(len(x))
+    if kind == "negx":
+        return -np.asarray(x, dtype=float)
+    if kind == "alt":
+        return (1.0 + 0.3 * np.asarray(x, dtype=float)) * np.where(np.arange(len(x)) % 2 == 0, 1.0, -1.0)
     raise ValueError(kind)
 
 
@@ -175,6 +179,11 @@ WEIGHT_FUNCS = {
     "y": lambda x, y: y,
     "x": lambda x, y: x,
     "one": lambda x, y: np.ones(len(x)),
+    # weights enter the objective squared (as sigma or as factor, see objective_weights): their sign
+    # carries no meaning, and callables that return negative values (y on data that cross zero, a
+    # centred quantity) are legitimate
+    "negx": lambda x, y: -np.asarray(x, dtype=float),
+    "alt": lambda x, y: (1.0 + 0.3 * np.asarray(x, dtype=float)) * np.where(np.arange(len(x)) % 2 == 0, 1.0, -1.0),
 }
 
 
@@ -269,7 +278,7 @@ def generate(prop, seed, tier):
     rounds = []
     # data far below / above the unfitted defaults (p0 ~ 1) make a premature or
     # stale fit land on the bounds; only for linear DAGs (exponents stay sane)
-    yscale = S.wpick([(1.0, 5), (0.1, 2), (0.03, 2), (10.0, 1)]) if linear_run else 1.0
+    yscale = S.wpick([(1.0, 10), (0.1, 4), (0.03, 4), (10.0, 2), (1e3, 1), (1e5, 1)]) if linear_run else 1.0
     for r in range(n_rounds):
         truth = []
         for f in funcs:
@@ -312,7 +321,7 @@ def generate(prop, seed, tier):
             f["bounds"] = [[0.0, None] for _ in t0]
             f["bound_kinds"] = ["pos"] * len(t0)
         if S.chance(0.25):
-            f["weights"] = S.pick(["y", "x", "one"])
+            f["weights"] = S.pick(["y", "x", "one", "y", "x", "negx", "alt"])
         if is_lin and f["weights"] is None and S.chance(0.18):
             # linear inequality constraint(s) coef.p + rhs >= 0, active or inactive
             nown = SHAPES[f["shape"]][1]
@@ -334,6 +343,16 @@ def generate(prop, seed, tier):
                     rhs = -sgn * lim
                 items.append({"coef": coef, "rhs": core.r6(rhs)})
             f["constraints"] = {"kind": S.pick(["dict", "list"]) if len(items) == 1 else "list", "items": items}
+    # the caller edits the public `bounds` of a function between two fits ("Consider choosing
+    # different bounds."): the next fit has to honour the bounds as they are then
+    for r in range(1, n_rounds):
+        if S.chance(0.2):
+            j = S.int(0, nf - 1)
+            f = funcs[j]
+            nb, kinds = _gen_bounds(S, rounds[r]["truth"][j], f["p0"], active_ok=SHAPES[f["shape"]][3])
+            if f["bounds"] is None and S.chance(0.5):
+                continue
+            rounds[r]["set_bounds"] = {"func": j, "bounds": nb, "kinds": kinds, "how": S.pick(["assign", "items"]) if f["bounds"] is not None else "assign"}
     # faults: F1 in at most one non-final round, always followed by a clean round
     if n_rounds >= 2 and S.chance(0.45):
         r = S.int(0, n_rounds - 2)
@@ -473,7 +492,7 @@ def _calib(kind, site, rel, rel_y, absd):
             f.write(f"{kind} {site} {rel:.4e} {rel_y:.4e} {absd:.4e}\n")
 
 
-def check_function(run, spec, j, x, y, params, tag):
+def check_function(run, spec, j, x, y, params, tag, yscale=1.0):
     """O1, O3, O4 for function j against its round data, given the final
     parameters of the whole DAG."""
     from scipy.optimize import lsq_linear
@@ -484,6 +503,10 @@ def check_function(run, spec, j, x, y, params, tag):
     path = "slsqp-constrained" if fs["constraints"] is not None else ("curve_fit-bounded" if fs["bounds"] is not None else "curve_fit-unbounded")
     if fs["weights"]:
         path += "-weighted"
+    if fs["constraints"] is not None and yscale >= 2e4:
+        # data at least 2e4 times the start parameters (which are of order one): a class of its
+        # own, because the SLSQP path is known to lose the optimum there (known_findings.json)
+        path += "-yscale-ge-2e4"
     site = f"{path}/{spec['dag']}"
     ynorm2 = float(np.sum(np.asarray(y) ** 2)) or 1.0
     constrained = fs["constraints"] is not None
@@ -505,6 +528,17 @@ def check_function(run, spec, j, x, y, params, tag):
             if c < -1e-5 * (1 + abs(it["rhs"]) + float(np.dot(np.abs(it["coef"]), np.abs(p)))):
                 run.violate("O1-constraint", site, {"func": j, "constraint": ci, "c(p)": c, "params": p})
                 return
+    if fs["shape"] == "alpha3":
+        # alpha3 divides by its conditioner in an exponent (Weibull scale over 2.0445**(1/beta)):
+        # where the fitted conditioner comes near zero or turns negative on the support points the
+        # shape has left its domain and the objective spans tens of orders of magnitude (seen in the
+        # thorough tier: S = 1e33 at the returned point, 6e52 at the start parameters); such a
+        # workload decides nothing about the fit
+        with np.errstate(all="ignore"):
+            dvals = ref_eval(spec, fs["conds"][0], x, params)
+        if not np.all(np.isfinite(dvals)) or float(np.min(dvals)) < 0.05:
+            run.count("o3_skipped_conditioner_outside_domain")
+            return
     Ws = objective_weights(fs["weights"], x, y)
     # tolerance classes (calibrated on the repaired tree over 1.6e4 runs, >= 10x the
     # largest deviation seen, then frozen; see DESIGN.md section 3/C14):
@@ -564,6 +598,22 @@ def check_function(run, spec, j, x, y, params, tag):
             break
     if best is not None and best["excess"] > 0:
         _calib("o3", site, best["rel"], best["rel_y"], best["drop"])
+    if best is not None and best["excess"] > 1.0 and not shape[3]:
+        # a nonlinear least-squares problem need not have a minimiser: when the data lie outside
+        # the family the infimum can sit at infinity (seen: lnsquare2 on 9x-scaled data, b -> 4.7e6
+        # and still falling, scipy stopping on its absolute gradient test).  No returned point can
+        # then be locally optimal, so a parameter that ran away by more than 1e4 times its start
+        # scale and improves further *away from zero*, with no bound in that direction, is counted
+        # and not judged
+        i = best["param"]
+        away = (best["step"] > 0) == (p[i] > 0)
+        free = True
+        if fs["bounds"] is not None:
+            lo, hi = fs["bounds"][i]
+            free = (hi is None) if p[i] > 0 else (lo is None)
+        if abs(p[i]) > 1e4 * (1.0 + abs(fs["p0"][i])) and away and free:
+            run.count("o3_skipped_runaway_no_minimiser")
+            return
     if best is not None and best["excess"] > 1.0:
         run.violate("O3-local-opt", site, {"func": j, "params": p, **best})
         return
@@ -729,6 +779,7 @@ def execute(prop, scen):
             cond = ConditionalDistribution(tmpl, pdict)
         run.event("build", [scen["dag"], scen["mode"]], params_of(objs))
         dirty = False
+        declared = scen  # the description as declared at this point of the history (bounds may be edited)
         for ri, rnd in enumerate(scen["rounds"]):
             x, ys = round_data(scen, rnd)
             if rnd.get("clone_before") and ri > 0:
@@ -744,6 +795,20 @@ def execute(prop, scen):
                 else:
                     objs = list(_copy.deepcopy(tuple(objs)))
                 run.count("probe:continued-on-deep-copy")
+            if rnd.get("set_bounds"):
+                import copy as _copy
+
+                sb = rnd["set_bounds"]
+                declared = _copy.deepcopy(declared)
+                declared["funcs"][sb["func"]]["bounds"] = [list(b) for b in sb["bounds"]]
+                declared["funcs"][sb["func"]]["bound_kinds"] = sb["kinds"]
+                tgt = objs[sb["func"]]
+                if sb["how"] == "items" and tgt.bounds is not None:
+                    for i, (lo, hi) in enumerate(sb["bounds"]):
+                        tgt.bounds[i] = (lo, hi)
+                else:
+                    tgt.bounds = [(lo, hi) for lo, hi in sb["bounds"]]
+                run.count("probe:bounds-edited-between-fits")
             fail_at = rnd["fail_at"]
             exc = None
             called = set()
@@ -790,7 +855,7 @@ def execute(prop, scen):
             if exc is not None:
                 # fault-free exception
                 no_slsqp = all(f["constraints"] is None for f in scen["funcs"])
-                if lin and no_slsqp and isinstance(exc, (RuntimeError, ValueError, AssertionError, TypeError)) and _topo_reference_completes(scen, rnd):
+                if lin and no_slsqp and isinstance(exc, (RuntimeError, ValueError, AssertionError, TypeError)) and _topo_reference_completes(declared, rnd):
                     run.violate(
                         "O7-order-dependent-failure",
                         f"{scen['dag']}/{scen['mode']}",
@@ -807,9 +872,9 @@ def execute(prop, scen):
                 continue  # not quiescent (cannot happen: orders are permutations)
             tag = f"{scen['mode']}" + ("/recovery" if dirty else "") + ("/refit" if ri > 0 and not dirty else "")
             for j in range(nf):
-                check_function(run, scen, j, x, ys[j], params, tag)
+                check_function(run, declared, j, x, ys[j], params, tag, rnd.get("yscale", 1.0))
             if not run.violations:
-                check_order_independence(run, scen, rnd, x, ys, params)
+                check_order_independence(run, declared, rnd, x, ys, params)
             dirty = False
             if run.violations:
                 return run
